@@ -128,7 +128,7 @@ PROPS = {
               "level (N1, N2, N7) and are blank-stripped (N4); every lookup failure inside parse_path is converted to ErrorInvalidPath, ls prints it and returns; whole path stripped, "
               "split on / and \\, trailing empty token dropped (N8); tokeniser loop terminates (T1)." + NOT +
               "that normalisation after de-duplication cannot merge two names (case/blank variants); blank names; error-free rendering of every item."),
-    "C11": _p(["S6", "S5", "S8", "L1a", "L1r"],
+    "C11": _p(["S6", "S5", "S8", "L1a", "L1r", "D4", "S1"],
               "Decides: every site that reads an underlying stream (StreamWrapper.read, SectorStream._read_sector, StreamReversed via read) re-establishes that stream's cursor from its own "
               "state on every path - tell/compare/_seek(position) or absolute seek to the sector address immediately before the read; raw readers are called only from those layers (S6); "
               "no subclass bypasses read (S5); parse-time probes restore positions (S8); shared partition / data-area windows have the recorded offset/size terms (L1a, L1r)." + NOT +
@@ -148,7 +148,7 @@ PROPS = {
               "the four Roland sample references and tolerant lists skip a failing element; Roland records are addressed absolutely (Computed/Pointer/Lazy only) so element i cannot shift "
               "element j (I1, L4); 24-byte file entries / record layouts (L1t, L2); out-of-range start sectors raise the exception the loop swallows (S1, S2)." + NOT +
               "damage that still parses (a start sector pointing into another file's chain); equality of the other items' audio."),
-    "C15": _p(["S4p", "S9", "T1", "L1w", "I1", "I5", "I4", "P5"],
+    "C15": _p(["S4p", "S9", "T1", "L1w", "I1", "I5", "I4", "P5", "S6"],
               "Decides: a short sector read is detected on every returning path of SectorStream._read (S4e) and ends the data stream instead of aborting (S9); partition scan leaves its "
               "loop on the first unparsable header (T1-STREAM-PARSE exits); length prefixes wrap the streamed data (L1w); unreadable files are skipped without stopping the remaining ones "
               "(I1); whole-frame blocks (P5)." + NOT + "prefix equality; which files are reported for which cut."),
